@@ -112,3 +112,26 @@ Fixpoint star_last (ps : list part) : bool :=
   | p :: r => negb (is_wild (snd p)) && star_last r
   end.
 Definition stars_last (fs : list flow) : bool := forallb (fun f => star_last (pat f)) fs.
+
+(* ---- the flow's OWN method / header / query / status requirements, in words ---- *)
+Definition method_holds (f : flow) (x : txn) : Prop :=
+  match f_methods f with
+  | [] => f_kind f = 0 \/ In (t_method x) default_methods  (* none listed: any verb (system flows: the five defaults) *)
+  | l => In (t_method x) l
+  end.
+(* every required header name is present (looked up lower-cased) with one of the
+   values listed for that name, compared case-insensitively *)
+Definition headers_hold (f : flow) (x : txn) : Prop :=
+  forall k v, In (k, v) (f_headers f) ->
+    exists v' have, In (k, v') (f_headers f) /\
+                    assoc (lower k) (t_headers x) = Some have /\ lower have = lower v'.
+(* every required query parameter is present and its (first) value is the required one *)
+Definition query_holds (f : flow) (x : txn) : Prop :=
+  forall k v, In (k, v) (f_query f) -> assoc k (t_query x) = Some v.
+Definition status_holds (f : flow) (x : txn) : Prop :=
+  f_status f = [] \/ In (t_status x) (f_status f).
+(* headers and query are judged on requests, status codes on responses *)
+Definition constraints_hold (f : flow) (x : txn) : Prop :=
+  method_holds f x /\
+  (t_resp x = false -> headers_hold f x /\ query_holds f x) /\
+  (t_resp x = true -> status_holds f x).
